@@ -164,24 +164,33 @@ impl<'a, H: HashChain> InMemoryLmsSignature<'a, H> {
         // Parsing like 5.4.2 Algorithm 6a
         let mut index = 0;
 
+        if data.len() < 8 {
+            return None;
+        }
         let lms_leaf_identifier =
             u32::from_be_bytes(read_and_advance(data, 4, &mut index).try_into().unwrap());
 
         // LMOTS Signature consists of LMOTS parameter, signature randomizer & signature data
         let lmots_parameter = LmotsAlgorithm::get_from_type::<H>(u32::from_be_bytes(
             read(data, 4, &index).try_into().unwrap(),
-        ))
-        .unwrap();
+        ))?;
+        let lmots_signature_length =
+            (4 + H::OUTPUT_SIZE * (1 + lmots_parameter.get_num_winternitz_chains())) as usize;
+        if data.len() < index + lmots_signature_length + 4 {
+            return None;
+        }
         let lmots_signature = lm_ots::signing::InMemoryLmotsSignature::new(read_and_advance(
             data,
-            (4 + H::OUTPUT_SIZE * (1 + lmots_parameter.get_num_winternitz_chains())) as usize,
+            lmots_signature_length,
             &mut index,
-        ))
-        .unwrap();
+        ))?;
 
         let _type = u32::from_be_bytes(read_and_advance(data, 4, &mut index).try_into().unwrap());
 
-        let lms_parameter = LmsAlgorithm::get_from_type(_type).unwrap();
+        let lms_parameter = LmsAlgorithm::get_from_type(_type)?;
+        if data.len() < index + (H::OUTPUT_SIZE * lms_parameter.get_tree_height() as u16) as usize {
+            return None;
+        }
         let authentication_path = read_and_advance(
             data,
             (H::OUTPUT_SIZE * lms_parameter.get_tree_height() as u16) as usize,
